@@ -19,6 +19,7 @@ RULE = ('E3: every direction pattern (2^rings) of every array of <=3 elements (q
         'missing stays missing, idempotent, input unmodified, for valid inputs intersects_bounds over feature boxes and '
         'PointArray.intersects over lattice points unchanged and area >= 0 with unchanged magnitude. '
         'Non-trivial: at least one ring had to be reversed. distinct = enumerated (array,slice) pairs + distinct E1 cases.')
+RULE += (' Added after the seeded rounds: whole float64 cases shrunk by an exact power of two (2^-1..2^-45); arrays whose front part was oriented before being concatenated with a raw part.')
 ASSUMPTIONS = ['intersection invariance asserted only for inputs whose holes oppose their shell (the winding number legitimately changes otherwise)']
 SCOPE = {'quick': {'max_len_exhaustive': 2, 'len3': '1/8 sample by seed'}, 'thorough': {'max_len_exhaustive': 3}}
 EXHAUSTIVE = {'quick': True, 'thorough': True}
